@@ -549,6 +549,7 @@ func runC15(c *Ctx, r *Rec) {
 		return
 	}
 	info := c.info("collection")
+	shapeLints(c, r, fileFuncs(c, "collection", cls))
 	a := &algCtx{c: c, info: info, cls: map[string]*ast.FuncDecl{}, memo: map[string]*uint8{}}
 	for name, fd := range c.methodsOf(cls) {
 		if len(paramObjs(info, fd)) == 2 {
@@ -895,6 +896,7 @@ func runC16(c *Ctx, r *Rec) {
 		return
 	}
 	info := c.info("collection")
+	shapeLints(c, r, fileFuncs(c, "collection", lcls, ccls))
 	// ---- D1 Concatenate
 	if fd := c.methodsOf(lcls)["Concatenate"]; fd != nil {
 		construct := c.fdName(fd)
